@@ -243,3 +243,99 @@ def index_rules(repo, res):
 
     run_route(repo, res, "create_from_lanelet_list", "two lanelets, with clean-up", r_from_list(True), method("create_from_lanelet_list"))
     run_route(repo, res, "create_from_lanelet_list", "two lanelets, without clean-up", r_from_list(False), method("create_from_lanelet_list"))
+
+
+# --------------------------------------------------------------------------- the two spatial look-ups, evaluated
+def lookup_rules(repo, res, RULE):
+    """find_lanelet_by_shape / find_lanelet_by_position evaluated against a model of the spatial tree: `query` answers
+    with bounding-box candidates (one of them a false positive), `geometries` holds the indexed polygons, `intersects`
+    tells the true hits.  Expected: by shape, the lanelet ids of exactly the candidates that intersect the queried
+    geometry; by position, per query point (aligned with the list) the ids the boundary-inclusive query pairs with it."""
+    from ..strdom import PyFunc, TupV
+
+    net_cls = repo.cls(LA, "LaneletNetwork")
+    geos = [geometry("tree geometry %d" % i) for i in range(3)]
+    lids = [501, 502, 503]
+
+    def make_net(ev, query, intersects):
+        for g in geos:
+            g.fields["intersects"] = PyFunc(lambda a, k, g=g: intersects(g, a, k), "intersects")
+            for alt in ("contains", "covers", "touches", "within", "overlaps", "dwithin"):
+                g.fields[alt] = PyFunc(lambda a, k, alt=alt: (_ for _ in ()).throw(AnalysisError("tree candidates are tested with .%s: outside the modelled vocabulary" % alt)), alt)
+        tree = Obj(None, {"geometries": ListV(geos), "query": PyFunc(query, "query")}, closed=True, label="tree")
+        n = Obj(net_cls, {"_strtee": tree, "_lanelet_id_index_by_id": DictV({ev.key_of(IdV(g)): k for g, k in zip(geos, lids)}), "_lanelets": DictV(), "_buffered_polygons": DictV({k: g for g, k in zip(geos, lids)})}, label="network")
+        return n
+
+    # ---- by shape
+    fs = net_cls.methods.get("find_lanelet_by_shape")
+    if fs is None:
+        raise AnalysisError("LaneletNetwork.find_lanelet_by_shape missing")
+    q = "LaneletNetwork.find_lanelet_by_shape"
+    shape_cls = repo.cls("commonroad/geometry/shape.py", "Rectangle")
+    sgeo = geometry("geometry of the queried shape")
+    shape = Obj(shape_cls, {"shapely_object": sgeo, "_shapely_polygon": sgeo}, label="queried shape")
+    asked = {"query": [], "intersects": []}
+
+    def query_shape(a, k):
+        asked["query"].append((a, k))
+        return ListV([0, 2])
+
+    def inter_shape(g, a, k):
+        asked["intersects"].append((g, a))
+        return g is geos[0]
+
+    ev = evaluator(repo)
+    n = make_net(ev, query_shape, inter_shape)
+    bad = []
+    try:
+        r = ev.call_fn(ev.bind(fs, net_cls, n), [shape], {}, fs)
+        if not (isinstance(r, ListV) and [x for x in r.items] == [lids[0]]):
+            bad.append("candidates %s of which only %s intersects: returns %s" % ([lids[0], lids[2]], lids[0], show(r)))
+        if not asked["query"] or any(not (a and a[0] is sgeo) for a, _k in asked["query"]):
+            bad.append("the tree is queried with %s, not with the shape's geometry" % ([show(a[0]) if a else None for a, _k in asked["query"]]))
+        if any(not (a and a[0] is sgeo) for _g, a in asked["intersects"]):
+            bad.append("candidates are tested against another geometry than the queried one")
+    except _Raise as x:
+        bad.append("raises %s" % x.what)
+    except Undecided as x:
+        raise AnalysisError("%s: %s" % (q, x))
+    res.check(RULE, "find_lanelet_by_shape: lanelet ids of exactly the tree candidates whose polygon intersects the queried geometry", not bad, net_cls.mod, fs, "%s: %s" % (q, "; ".join(bad)), "bounding-box candidates are not filtered by `intersects` against the very geometry queried with, or a hit is mapped to the wrong lanelet id", qualname=q)
+
+    # ---- by position
+    fp = net_cls.methods.get("find_lanelet_by_position")
+    if fp is None:
+        raise AnalysisError("LaneletNetwork.find_lanelet_by_position missing")
+    q = "LaneletNetwork.find_lanelet_by_position"
+    pts = [Sym("point%d" % i, "num") for i in range(3)]
+    seen = {}
+
+    def query_points(a, k):
+        seen["args"], seen["kw"] = a, k
+        return TupV([ListV([0, 0, 2]), ListV([1, 2, 0])])
+
+    ev = evaluator(repo)
+    n = make_net(ev, query_points, lambda g, a, k: True)
+    bad = []
+    try:
+        r = ev.call_fn(ev.bind(fp, net_cls, n), [ListV(pts)], {}, fp)
+        want = [[lids[1], lids[2]], [], [lids[0]]]
+        got = [list(x.items) if isinstance(x, ListV) else x for x in r.items] if isinstance(r, ListV) else None
+        if got is None or len(got) != 3 or [sorted(x) if isinstance(x, list) else x for x in got] != [sorted(x) for x in want]:
+            bad.append("tree pairs (point 0: %s, %s; point 2: %s): returns %s" % (lids[1], lids[2], lids[0], show(r)))
+        a, k = seen.get("args"), seen.get("kw", {})
+        qg = a[0] if a else None
+        okq = isinstance(qg, ListV) and len(qg.items) == 3 and all(isinstance(x, Ctor) and x.name.endswith("Point") and list(x.args.values())[0] is p for x, p in zip(qg.items, pts))
+        if not okq:
+            bad.append("the tree is not queried with one point geometry per query point, in order (%s)" % show(qg))
+        pred = k.get("predicate")
+        pv = pred.text() if isinstance(pred, Str) and pred.is_lit() else None
+        dist = k.get("distance")
+        inclusive = pv in ("intersects", "covered_by", "within_or_touches") or (pv == "dwithin" and isinstance(dist, (int, float)) and 0 <= dist <= 1e-9)
+        if not inclusive:
+            bad.append("query predicate %s (distance %s) is not the boundary-inclusive point test" % (pv, show(dist)))
+    except _Raise as x:
+        bad.append("raises %s" % x.what)
+    except Undecided as x:
+        raise AnalysisError("%s: %s" % (q, x))
+    res.check(RULE, "find_lanelet_by_position: per query point, in order, the lanelet ids the boundary-inclusive tree query pairs with it", not bad, net_cls.mod, fp, "%s: %s" % (q, "; ".join(bad)), "hits are attributed to the wrong query point, mapped to the wrong lanelet id, points on a boundary are excluded, or the answer is not aligned with the list of points", qualname=q)
+    return fs
